@@ -56,8 +56,13 @@ def root():
     return _ROOT
 
 
+# Every project the checks build lives below a directory whose name is unusual but legitimate: a space, a bracket class, a
+# brace field, a percent sign and a non-ASCII letter (glob / format / regex meta characters must not matter to signac).
+ODD = "" if os.environ.get("VCHECK_PLAIN_PATHS") else " [1]{T}%s é"
+
+
 def worker_dir():
-    d = os.path.join(_ROOT, f"w{os.getpid()}")
+    d = os.path.join(_ROOT, f"w{os.getpid()}{ODD}")
     os.makedirs(d, exist_ok=True)
     return d
 
